@@ -105,7 +105,8 @@ claim(
     "set agreement between specialize/__getstate__/__setstate__, branch coverage of __reduce__, attribute resolution",
     "Narrow structural part: wrapper attributes installed, stripped and rebuilt are the same set and __dict__ is restored "
     "first; __reduce__ covers None/str/function and raises otherwise, its deserializers are module-level and restore every "
-    "attribute __init__ sets; every self.x in the pickling helpers resolves; Select.__getattr__ cannot recurse. Fidelity of "
+    "attribute __init__ sets; a rebuilt function gets a namespace of its own and the module's globals() are never written; every "
+    "self.x in the pickling helpers resolves; Select.__getattr__ cannot recurse. Fidelity of "
     "marshal-ed code and liveness/equality of the clone are NOT decided.",
     "pickle's protocol itself is trusted.",
     "DESIGN.md section 3, C11",
@@ -116,7 +117,7 @@ claim(
     "Decides the ordering clause on every path of all 19 fill(): after the node's own state changed, no user function, "
     "child fill, raising helper, explicit raise, computed index or operation on a not-yet-validated user value can follow; "
     "single-path containers fill at most one child per path (induction step for ancestors); the repository's own rollback "
-    "marker comment never follows an own-state store. Run-time exception behaviour is NOT executed; numpy paths are outside "
+    "marker comment never follows an own-state store; conversion helpers that fill relies on as validators let the conversion error escape. Run-time exception behaviour is NOT executed; numpy paths are outside "
     "the property.",
     "A user value counts as validated only by an isinstance test against numbers.Real or narrower (or a string type): "
     "math.isnan/isinf, arithmetic and comparisons on a validated numbers.Real, and membership/store on the node's own dict "
@@ -130,7 +131,7 @@ claim(
     "Narrow structural part: every self.x in primitives/specialised classes/plot mixins resolves in each composition; the "
     "accessors of Bin/SparselyBin/CentrallyBin reach the routing function fill uses and do not re-implement index arithmetic; "
     "element counts agree (edges = entries + 1, centres = entries = num_bins) on the full-range and general branches; "
-    "Categorize labels/entries iterate the same dict; 2-D grids/projections sum inner-most bins only; every edge expression "
+    "Categorize labels/entries iterate the same dict; None-or-number attributes (minBin/maxBin) are never used as truth values; 2-D grids/projections sum inner-most bins only; every edge expression "
     "(range(), isclose corrections) is the class's one edge function of its index; children are looked up by an index obtained "
     "from the class's own index methods, never from inline arithmetic on the query; views have no store effect on the "
     "histogram and projections are built from fresh counters (shared rules of C06). Sub-range numerics (rounding, arange "
@@ -144,7 +145,8 @@ claim(
     "Narrow structural part: along the call graph from make_histograms the input frame and its plain aliases are never the "
     "target of a direct store; data-derived filler attributes read while histograms are built are exported by "
     "get_features_specs and make_histograms forwards its specification parameters; every bin-spec key set produced anywhere "
-    "is accepted by a branch of get_hist_bin; _fill_histogram fills through hist.fill.numpy. The homomorphism over row chunks, "
+    "is accepted by a branch of get_hist_bin; _fill_histogram fills through hist.fill.numpy; given specs are never overwritten; a "
+    "function that takes an axis index reads its column list with that index; no freshly indexed Series is assigned into the frame. The homomorphism over row chunks, "
     "dtype inference and quantiles are run-time and NOT decided.",
     "Only the pandas filler is followed (spark is not importable here and is outside the property's environment).",
     "DESIGN.md section 3, C14",
@@ -181,7 +183,9 @@ claim(
     "Narrow structural part: self.x reads in UserFcn/CachedFcn resolve; CachedFcn's hit condition reads exactly the "
     "attributes the miss path writes, compares positionals under a length equality and keywords under key-set equality and "
     "calls the base __call__ unchanged; serializable/cached/named never double-wrap, carry expr and name, test the subclass "
-    "first, and a second name raises; UserFcn.__call__ compiles once and passes arguments through. What string expressions "
+    "first, a second explicit name raises while a default name derived by the constructor does not block a first one; the memo "
+    "key is stored only after the wrapped call returned; UserFcn.__call__ compiles once, passes arguments through, evaluates in a "
+    "namespace that is fresh per call and in which the record's fields take precedence over pre-loaded names. What string expressions "
     "evaluate to is NOT decided.",
     "none beyond the class model.",
     "DESIGN.md section 3, C17",
@@ -211,7 +215,9 @@ claim(
     "{0,1,>0}, scalar and array weights, Count and non-Count children, known/unknown shape, and every fast/slow path: the same "
     "{(child slot, weight)} as fill up to zero weights (containers) / the same influence of the row on the accumulators "
     "(leaves); entries grows by the unmasked caller weight; no array that may alias the caller's inputs is written (with an "
-    "embedded positive control); same slots visited; Average/Deviate batch merge == __add__ as rational functions. One known "
+    "embedded positive control); same slots visited; Average/Deviate batch merge == __add__ as rational functions; a one-row "
+    "batch changes a Minimize/Maximize exactly as fill does for every region relative to the current extremum; Count adds (per-row "
+    "increment) x (number of rows) on every branch; Stack is also checked with descending thresholds. One known "
     "finding (Sum masks NaN rows). NOT decided: equality of floating-point reductions, key creation order, negative weights.",
     "numpy/bisect library summaries (np.histogram edge conventions, np.unique partition, int64 cast of NaN/inf) are stated "
     "assumptions; every numpy operation used must be in the closed vocabulary (else ANALYSIS-ERROR).",
